@@ -14,7 +14,7 @@ claimed = {
  "C15": ("choice-tree DFS over all injective renamings of up to 3 symbols into an adversarial name pool x programs x both formats; differential against neutral names, independent COFF reader", "7/C15"),
  "C06": ("choice-tree DFS over all expression trees up to 3 operators x literal set x 3 renderings x operand positions; big-integer reference evaluator", "7/C06"),
  "C16": ("choice-tree DFS over program variants x all ordered pairs of 7 ORG settings; differential relocation oracle with model-known absolute fields", "7/C16"),
- "C17": ("choice-tree DFS over directive choices {none,16,32}^3 x instruction groups x interleaved statements, and the directive at every prelude position; differential oracle against single-mode segments, exact last_bits_wins defect model", "7/C17"),
+ "C17": ("choice-tree DFS over directive choices {none,16,32}^3 x instruction groups x interleaved statements, and the directive at every prelude position; differential oracle against single-mode segments, label behind each group vs its real offset", "7/C17"),
  "C03": ("choice-tree DFS over statement kinds (and ordered pairs) in front of a label x uses of the label/$ x ORG x BITS; sentinel-located real offsets vs embedded values and pass-1 table; per-kind defect model", "7/C03"),
  "C04": ("choice-tree DFS over 32 branch mnemonics x every gap 0..140 (+-32768 boundary) x direction x target kind x ORG x BITS; reference decoder: cc, next+disp == real target, size", "7/C04"),
  "C02": ("choice-tree DFS over every 16/32-bit addressing shape x displacement x carrier x width x BITS; reference decoder, effective address compared as a linear form", "7/C02"),
@@ -26,7 +26,7 @@ texts = {
  "C19": "Every argument vector up to length 3 (thorough: 4) over source/destination situations (valid, missing, unparsable, empty, directory, new, existing, missing directory, /dev/full) and flags is run as the real gosk command in a freshly prepared directory - the file-system answers are enumerated like injected faults - and judged against a model of the contract (exit 0/16/17/non-zero, line:col on parse errors, output file == API bytes on success, never a partial image after a failure). Comments containing each Shift_JIS double-byte code (incl. trail bytes 5C/7C), half-width kana, 2- and 3-byte UTF-8 characters, mid-comment and directly before the newline, must not change the output.",
  "C08": "131040 COFF programs (thorough; 4680 quick) are assembled and every object is parsed by an independent strict COFF reader that bounds-checks every offset and count (header, three section headers, symbol records incl. aux, string table length and long-name offsets) and by Go's debug/pe.",
  "C09": "For the same programs: .text must be byte-identical to the flat binary of the source without [FORMAT]; each defined GLOBAL name exactly once as class-2 symbol of section 1 whose value is the sentinel-located offset of its label; long names through the string table; defined symbols in address order, undefined last; the [FILE] name in the .file aux record.",
- "C10": "Operations are assemble(program, destination state) for 12 programs x {absent, longer leftover file, shorter leftover file} and re-assemble-the-same-parsed-tree x 3 (39 operations). Every history of length 1 and 2 from a fresh process (quick: pairs over 15 operations) and, in the thorough tier, every ordered triple as a window of a de Bruijn sequence run on live workers; after every operation the output and diagnostics must equal those of the program as the only operation of a fresh process, and digests of the process-global tables and of the parsed tree must be unchanged.",
+ "C10": "Operations are assemble(program, destination state) for 20 programs x {absent, longer leftover file, shorter leftover file} and re-assemble-the-same-parsed-tree x 3 (63 operations). Every history of length 1 and 2 from a fresh process (quick: pairs over 15 operations) and, in the thorough tier, every ordered triple as a window of a de Bruijn sequence run on live workers; after every operation the output and diagnostics must equal those of the program as the only operation of a fresh process, and digests of the process-global tables and of the parsed tree must be unchanged.",
  "C07": "Every mnemonic the grammar accepts with every operand list up to arity 1 (thorough: 2, and 3 over six kinds) over 15 operand kinds is embedded between sentinels; a statement accepted without any diagnostic must have emitted bytes, and bytes the reference decoder can read must denote the written mnemonic and operands; directives must refuse operands they cannot represent; an undefined symbol in each of 34 operand positions must be diagnosed; file prefixes x unparsable first lines must not make the rest of the file disappear.",
  "C13": "Exhaustive enumeration of short byte strings, token strings, single-token and line mutations and the mnemonic x operand space, each executed on the real pipeline in a worker whose death, recovered panic or missing answer is the failure; scaling families are measured at n = 10..10^4 (thorough 10^5) against a 200x-per-decade envelope.",
  "C11": "Every non-empty subset of the literal sites of six base programs (immediates, displacements, data items, RESB/ALIGNB/ORG operands, far-pointer parts, port numbers; values on both sides of encoding boundaries) is replaced by EQU names with chains of depth 1..4, three body forms and two placements; the output must be byte-identical to the inlined program. 4320 variants, exhaustive within those bounds.",
@@ -35,12 +35,12 @@ texts = {
  "C15": "All injective assignments of up to three symbols into a 16-name adversarial pool (thorough) over eight programs, flat and WCOFF: flat output byte-identical to the neutral naming, COFF identical except the name fields/string table (read by an independent strict COFF reader).",
  "C06": "Every expression tree with up to 2 (thorough: 3) binary operators over a boundary literal set, in three renderings, is assembled through DD and compared with an arbitrary-precision reference evaluator; a reduced set is placed in every other operand position (DB/DW, immediates, displacements around a register term, RESB, EQU bodies and chains, ORG). Zero divisors must be diagnosed. Exhaustive within the stated bounds.",
  "C16": "For every program variant and every ordered pair of origins the second output must equal the first with the origin difference added at exactly the absolute fields (positions known from sentinels) and be identical elsewhere, including branch displacements and length; no ORG must equal ORG 0.",
- "C17": "All 27 directive assignments over three segments x 10 mode-sensitive instruction groups x 7 interleaved neutral statements: the output must equal the concatenation of the segments assembled alone under the mode in force; plus the directive at each of 6 prelude positions.",
+ "C17": "All 27 directive assignments over three segments x 18 mode-sensitive instruction groups x 7 interleaved neutral statements: the output must equal the concatenation of the segments assembled alone under the mode in force; plus the directive at each of 6 prelude positions.",
  "C03": "Every statement kind of a 121-kind catalogue (one per size class) - and in the thorough tier every ordered pair - is placed in front of a label whose real address is located by a sentinel; seven kinds of use of the label and of $ are read back from the output and compared; pass-1 size vs emitted size is compared per kind. Label drift in longer programs is excused only when it equals the sum of the listed per-kind est/emit differences (defect model). Exhaustive within the catalogue and depth.",
  "C04": "Each branch is decoded by the reference decoder at its sentinel-located position: the condition code must be the named one, address-of-next + displacement must equal the real target (label located by sentinel, or the literal number), no stray prefix, emitted length == pass-1 size. All 32 mnemonics x all gaps 0..140 forward and backward x label/numeric x 2 origins x 2 modes (thorough), plus +-32768 boundary gaps and far pointers.",
- "C02": "All 16-bit shapes and all 32-bit base x index x scale shapes (valid and invalid) x 14 boundary displacements x carrier instructions x widths x both modes are assembled by the real pipeline; the emitted prefix/ModRM/SIB/displacement is decoded by the reference decoder and the denoted address is compared, as a linear form modulo the address size, with the address written. Exhaustive within the stated alphabets.",
+ "C02": "All 16-bit shapes and all 32-bit base x index x scale shapes (valid and invalid, incl. mixed register widths) x 14 boundary displacements x carrier instructions x widths x both modes are assembled by the real pipeline; the emitted prefix/ModRM/SIB/displacement is decoded by the reference decoder and the denoted address is compared, as a linear form modulo the address size, with the address written. Exhaustive within the stated alphabets.",
  "C18": "For every instruction of the stated space the emitted length is compared with the minimum over all valid encodings listed by an independent reference encoder (whose encodings are first verified to decode back). Exhaustive within the stated alphabets.",
- "C01": "Every cell of the stated product (all operand-less mnemonics, 9 two-operand operations x 3 widths x all register pairs, all 24 registers x boundary immediates, register/memory and memory/immediate forms, unary, shifts, segment/control moves, IN/OUT, PUSH/POP, IMUL, all 256 INT vectors, both modes) is assembled by the real pipeline and the bytes are decoded by an independent reference decoder and compared with the source's meaning (operation, registers in roles, operand size, immediate modulo width, effective address, prefixes, length). Exhaustive within the stated alphabets.",
+ "C01": "Every cell of the stated product (all operand-less mnemonics, 9 two-operand operations x 3 widths x all register pairs, all 24 registers x boundary immediates, register/memory and memory/immediate forms, unary, shifts, segment/control moves (register and memory forms), IN/OUT, PUSH/POP, IMUL, all 256 INT vectors, both modes) is assembled by the real pipeline and the bytes are decoded by an independent reference decoder and compared with the source's meaning (operation, registers in roles, operand size, immediate modulo width, effective address, prefixes, length). Exhaustive within the stated alphabets.",
  "C05": "Every operand list up to the stated length over a 27-item boundary alphabet (and rotations up to length 64), every RESB/ALIGNB/residue/ORG combination and every non-emitting statement is assembled by the real pipeline and compared byte for byte with a directive model; the location counter is compared with the emitted length. Exhaustive within the stated bounds.",
 }
 notes = {
@@ -48,7 +48,7 @@ notes = {
  "C08": "Trusted: the strict COFF reader (written from the specification), debug/pe as a second reader.",
  "C09": "Known finding: [FILE] names longer than 18 bytes are truncated. Fixed: duplicate GLOBAL names.",
  "C10": "Map iteration order and the clock are not controlled choice points (stated in the evidence); 5 fresh CLI processes per program are an auxiliary smoke test. Global state is observed through overlay-injected read-only dumpers; if they fail to build against an edited tree the check falls back to output comparison only.",
- "C07": "Validity of x86 forms is not modelled in full: accepted statements whose bytes the reference decoder cannot read are counted (accepted_unknown_encoding) and not judged further. Known findings: operand-less opcode table, segment registers as general registers, 32-bit branch targets in 16-bit mode, DB/DW/DD without operands, [undefined] = 0, leading newline + unparsable first line.",
+ "C07": "Validity of x86 forms is not modelled in full: accepted statements whose bytes the reference decoder cannot read are counted (accepted_unknown_encoding) and not judged further. Known findings: operand-less opcode table (pinned by a repository test), 32-bit branch targets in 16-bit mode, leading newline + unparsable first line. Repaired: segment registers as general registers, DB/DW/DD without operands, [undefined] = 0, GLOBAL of an undefined name.",
  "C13": "Byte strings are exhaustive only to length 2/3; timing oracle is an envelope, not a bound. Crashes are re-confirmed through the real CLI before being reported.",
  "C11": "Differential; the inlined program is the reference.",
  "C12": "Differential; the canonical layout is the reference. Known findings: a label that is the first statement of the file cannot be preceded by indentation, a comment line (parse error) or a blank line (whole file silently ignored).",
@@ -56,10 +56,10 @@ notes = {
  "C15": "Differential; names restricted to [A-Za-z0-9_] as the property's quantifier states (a dotted name breaks text/template label substitution but is outside the quantifier).",
  "C06": "Trusted: the reference evaluator (math/big), DD/DB/DW emission (C05), x86ref for immediates/displacements. Values leaving int64 are not judged.",
  "C16": "Trusted: sentinel framing, the layout of the test programs (absolute fields directly after sentinels; MOV r16,imm16 = opcode+iw).",
- "C17": "Differential: single-mode assembly is the reference (its correctness is C01's). Known finding C17-F01 (emission uses the last BITS of the file) is recognised only by exact equality with its defect model.",
- "C03": "Trusted: sentinel framing (DB path verified by C05), x86ref decoder for instruction uses, the worker's view of pass-1 SymTable/LOC. Known findings: [lab] in memory operands encodes 0; per-kind size-estimate disagreements (branches, PUSH/POP FS/GS, INT 3, MOV CRn, PUSH imm16, IMUL imm, 32-bit addressing).",
+ "C17": "Differential: single-mode assembly is the reference (its correctness is C01's). The former finding C17-F01 (emission used the last BITS of the file) was repaired by 791856e; no known finding is left.",
+ "C03": "Trusted: sentinel framing (DB path verified by C05), x86ref decoder for instruction uses, the worker's view of pass-1 SymTable/LOC. Known finding: branch sizing (pass 1 sizes by mode, codegen emits by distance). Repaired: [lab] in memory operands, PUSH/POP FS/GS, INT 3, MOV CRn, PUSH imm16, IMUL imm, 32-bit addressing sizes.",
  "C04": "Trusted: x86ref decoder, sentinel framing. The branch machinery of the pinned tree is wrong in most cells outside short label-target jumps in 16-bit mode; those cells are listed as known findings by (mode, class, direction, target kind, gap) with exact deviations.",
- "C02": "Trusted: x86ref decoder and MemSpec linear-form comparison. Displacements that do not fit the address width are outside the model. Known findings: four root causes in calculateModRM (index-only, EBP base without displacement, 16-bit pairs in 32-bit mode, zero SIB byte).",
+ "C02": "Trusted: x86ref decoder and MemSpec linear-form comparison. Displacements that do not fit the address width are outside the model. No known finding is left: the five defects found in calculateModRM (index-only, EBP base without displacement, 16-bit registers under BITS 32, zero SIB byte, mixed register widths) were repaired.",
  "C18": "Trusted: x86ref encoder/decoder pair (26k pairs self-checked per run). Only statements that decode to the source instruction are judged.",
  "C01": "Trusted: x86ref decoder (written from the SDM opcode maps; self-checked; cross-checked against objdump where present). Statements gosk refuses with an error are not judged (DESIGN.md section 5). Known findings: the operand-less opcode table (pinned by a repository test).",
  "C05": "Trusted: the directive reference model (a few lines per directive), sentinel DB lines (members of the explored space), worker = cmd/gosk pipeline (gen.Parse + frontend.Exec), re-confirmed through the real CLI for every reported failure.",
